@@ -64,3 +64,45 @@ def parse_report(out: str, src: str):
             if fn not in res or res[fn][0] != "refuted":
                 res[fn] = ("inconclusive", msg)
     return res
+
+
+def lemma_result(oid, module_file, fn, subs, pct, bounds_text, describe, witness_class):
+    """Run one CrossHair contract and turn it into a Result: confirmed -> holds; a counterexample is re-run on the
+    plain function (no CrossHair) and only a reproducing one is a violation; everything else is inconclusive."""
+    import importlib.util
+    from .common import Result
+    res = Result(oid, "holds")
+    report, raw, dt = run_crosshair(module_file, subs, per_condition_timeout=pct, total_timeout=pct * 2 + 60)
+    res.solver_s, res.queries = dt, 1
+    st, msg = report.get(fn, ("inconclusive", "no report line: " + raw[-300:]))
+    res.sample = {"obligation": oid, "contract": fn, "status": st, "engine": "crosshair-tool", "bounds": bounds_text}
+    if st == "confirmed":
+        return res
+    if st == "refuted":
+        m = re.search(r"calling \w+\((.*)\) \(which", msg)
+        args = None
+        if m:
+            try:
+                args = eval("(" + m.group(1) + ",)", {"__builtins__": {}})
+            except Exception:
+                args = None
+        ok = None
+        if isinstance(args, tuple):
+            src = open(module_file).read()
+            for k, v in (subs or {}).items():
+                src = re.sub(rf"^{k} = .*$", f"{k} = {v!r}", src, flags=re.M)
+            ns = {"__name__": "verif_lemma_replay"}
+            try:
+                exec(compile(src, module_file, "exec"), ns)
+                ok = ns[fn](*args)
+            except Exception as e:      # noqa: BLE001
+                ok = f"{type(e).__name__}: {e}"
+        if ok is False:
+            res.verdict = "violation"
+            res.detail = describe(args)
+            res.witness = {"args": [repr(a) for a in args], "class": witness_class}
+            return res
+        res.verdict, res.detail = "inconclusive", f"counterexample did not replay ({ok!r}): {msg}"[:300]
+        return res
+    res.verdict, res.detail = "inconclusive", f"{fn}: {msg}"[:300]
+    return res
